@@ -411,7 +411,9 @@ ADDENDA = {
            "link_mesh_fragments as a run over the CSV rows with exclusive file creation (Mesh.links): for pairwise "
            "distinct labels over a directory holding none of their files every row's file lists exactly that row's "
            "fragments and nothing else changes (links_list_exactly_the_given_fragments, file name injective in the "
-           "label), and a label met again stops the run without overwriting (links_never_overwrite); tied to the real "
+           "label), a label met again stops the run without overwriting (links_never_overwrite), complete runs do not depend on the "
+           "row order, and for EVERY CSV and abort point each file afterwards was there before or lists exactly one of "
+           "its label's rows (links_files_come_from_rows); tied to the real "
            "tool by a second run over the same directory with repeated, duplicated and zero-padded labels (mesh-links).",
     "C18": " Also: the sharded writer's disk-backed buffers under failures (Buffers model): after ANY history of appends "
            "failing at open or after any number of bytes the buffer holds exactly the successful payloads and reports that "
